@@ -291,7 +291,9 @@ def _steadystate_svd(L, **kw):
     u, s, vh = _data.svd(L.data, True)
     vec = _data.split_columns(vh.adjoint())[-1]
     rho = _data.column_unstack(vec, n)
-    rho = Qobj(rho, dims=L._dims[0].oper, isherm=True)
+    # The null vector comes with an arbitrary phase: it is only Hermitian once
+    # divided by its (complex) trace.
+    rho = Qobj(rho, dims=L._dims[0].oper)
     return rho / rho.tr()
 
 
